@@ -177,14 +177,28 @@ Proof.
   exact (pre_order_heap_is_pre_stack_res st par fl t HR Hn).
 Qed.
 
-Theorem find_node_heap_is_descr : forall gp gq gf,
-  gp = Some descr_pre -> gq = Some descr_post -> gf = Some descr_find ->
-  forall dp dq df, gp = Some dp -> gq = Some dq -> gf = Some df ->
-  forall st par fl t p, Rep tab st par fl t -> NoDup (ids t) -> parent_alloc st par ->
+(* find_node walks pre_order ([fd_trav descr_find = TPre]): the post_order description is not looked at *)
+Lemma interp_find_any_post : forall dq par flg t p,
+  interp_find descr_pre dq descr_find par flg t p = find_node_h par flg t p.
+Proof.
+  intros. unfold interp_find, find_node_h. cbn [fd_trav descr_find]. rewrite interp_pre_eq.
+  destruct (pre_stack t) as [lst|]; [| reflexivity].
+  destruct (Nat.ltb p (length lst)); [| reflexivity].
+  destruct (nth_error lst p) as [node|]; [| reflexivity].
+  cbn [fd_tree fd_default descr_find eval_ftree].
+  destruct (tlab node); cbn [Bool.eqb eval_ftree eval_ret evalp]; [reflexivity|].
+  destruct (par (tid node)) as [q|]; [| reflexivity].
+  destruct (par q); reflexivity.
+Qed.
+
+Theorem find_node_heap_is_descr : forall gp gf,
+  gp = Some descr_pre -> gf = Some descr_find ->
+  forall dp df, gp = Some dp -> gf = Some df ->
+  forall dq st par fl t p, Rep tab st par fl t -> NoDup (ids t) -> parent_alloc st par ->
   TreeHeap.find_node st (tid t) p = res_of_fn (interp_find dp dq df (hpar st) (hflg st) t p).
 Proof.
-  intros gp gq gf -> -> -> dp dq df Ep Eq Ef st par fl t p HR Hn Hp.
-  injection Ep as <-. injection Eq as <-. injection Ef as <-. rewrite interp_find_eq.
+  intros gp gf -> -> dp df Ep Ef dq st par fl t p HR Hn Hp.
+  injection Ep as <-. injection Ef as <-. rewrite interp_find_any_post.
   exact (find_node_heap_is_find_node_h st par fl t p HR Hn Hp).
 Qed.
 
@@ -212,6 +226,39 @@ Proof.
   split; [apply erase_rename|]. intros p. rewrite <- (tid_rename (copy_ren st t) t).
   apply find_node_WFt_is_find_node_h. exact C.
 Qed.
+
+Theorem find_node_on_copy_is_descr : forall gp gf,
+  gp = Some descr_pre -> gf = Some descr_find ->
+  forall dp df, gp = Some dp -> gf = Some df ->
+  forall st t m st1, WFt tab st t -> deepcopy st (tid t) = Ok (m, st1) ->
+  exists t', tid t' = m /\ WFt tab st1 t' /\ erase t' = erase t /\
+    forall dq p, TreeHeap.find_node st1 m p = res_of_fn (interp_find dp dq df (hpar st1) (hflg st1) t' p).
+Proof.
+  intros gp gf -> -> dp df Ep Ef st t m st1 HW Hd.
+  injection Ep as <-. injection Ef as <-.
+  destruct (find_node_on_copy_is_find_node_h st t m st1 HW Hd) as (t' & A & B & C & D).
+  exists t'. split; [exact A|]. split; [exact B|]. split; [exact C|].
+  intros dq p. rewrite interp_find_any_post. apply D.
+Qed.
+
+(* the WFt forms the property files use *)
+Theorem find_node_WFt_is_descr : forall gp gf,
+  gp = Some descr_pre -> gf = Some descr_find ->
+  forall dp df, gp = Some dp -> gf = Some df ->
+  forall dq st t p, WFt tab st t ->
+  TreeHeap.find_node st (tid t) p = res_of_fn (interp_find dp dq df (hpar st) (hflg st) t p).
+Proof.
+  intros gp gf Hp Hf dp df Ep Ef dq st t p [HR Hn].
+  exact (find_node_heap_is_descr gp gf Hp Hf dp df Ep Ef dq st None true t p HR Hn (parent_alloc_None st)).
+Qed.
+
+Theorem pre_order_WFt_is_descr : forall gp, gp = Some descr_pre -> forall dp, gp = Some dp ->
+  forall st t, WFt tab st t -> pre_order st (tid t) = res_of_ids (interp_pre dp t).
+Proof. intros gp Hp dp Ep st t [HR Hn]. exact (pre_order_heap_is_descr gp Hp dp Ep st None true t HR Hn). Qed.
+
+Theorem n_nodes_WFt_is_descr : forall gr, gr = Some descr_props -> forall d, gr = Some d ->
+  forall st t, WFt tab st t -> n_nodes st (tid t) = res_of_zcount (interp_props d t).
+Proof. intros gr Hr d E st t [HR Hn]. exact (n_nodes_heap_is_descr gr Hr d E st None true t HR Hn). Qed.
 
 End Link.
 
